@@ -63,6 +63,18 @@ def CurrentFunc(base, amp, w):
     return terminal_currents
 
 
+def CurrentPulse(base, t_off):
+    """Balanced currents switched off (exactly zero on every terminal) for t >= t_off."""
+    base = dict(base)
+
+    def terminal_currents(t):
+        if t < t_off:
+            return dict(base)
+        return {k: 0.0 for k in base}
+
+    return terminal_currents
+
+
 def eps_spatial_vec(r, *, vectorized=True):
     r = np.atleast_2d(r)
     return 1.0 - 0.6 * np.exp(-((r[:, 0] - 0.3) ** 2 + (r[:, 1] + 0.2) ** 2) / 0.8)
@@ -116,6 +128,8 @@ def build_drive(d, device, options):
         tc = dict(c["values"])
     elif c["kind"] == "callable":
         tc = CurrentFunc(c["values"], c.get("amp", 0.5), c.get("w", 1.3))
+    elif c["kind"] == "pulse":
+        tc = CurrentPulse(c["values"], c["t_off"])
     else:
         raise ValueError(c["kind"])
 
@@ -142,6 +156,8 @@ def currents_at(d, t):
         return {}
     if c["kind"] in ("const", "decimal"):
         return dict(c["values"])
+    if c["kind"] == "pulse":
+        return dict(c["values"]) if t < c["t_off"] else {k: 0.0 for k in c["values"]}
     f = 1.0 + c.get("amp", 0.5) * math.sin(c.get("w", 1.3) * t)
     return {k: v * f for k, v in c["values"].items()}
 
